@@ -49,7 +49,14 @@ def main():
                 info.append(d)
                 if d['refuted'] > 0: detected = True
             kind = m.get('kind', 'breaking')
-            status = ('DETECTED' if detected else 'MISSED') if kind == 'breaking' else ('FALSE-ALARM' if (detected or any(i['n_open'] or i['undecided'] for i in info)) else 'quiet')
+            if kind == 'breaking':
+                status = 'DETECTED' if detected else 'MISSED'
+            elif kind == 'harmless-may-be-undecided':
+                # a correct re-implementation the contract cannot prove (needs an induction the solver does not do): it must not be REFUTED;
+                # undecided obligations are the honest outcome
+                status = 'FALSE-ALARM' if detected else ('quiet (undecided)' if any(i['n_open'] or i['undecided'] for i in info) else 'quiet')
+            else:
+                status = 'FALSE-ALARM' if (detected or any(i['n_open'] or i['undecided'] for i in info)) else 'quiet'
             print(f"{m['id']:40s} {kind:9s} {status:12s} refuted={sum(i['refuted'] for i in info)} replayed={sum(i['replayed'] for i in info)} "
                   f"unknown/undecided={sum(i['n_open'] - i['refuted'] for i in info)}/{sum(len(i['undecided']) for i in info)} {[i['crash'][:100] for i in info if i.get('crash')]}")
             res.append((m['id'], kind, status))
